@@ -62,6 +62,27 @@ def disc_root(schema, c):
     return None
 
 
+def has_tag(schema, c):
+    """the class body binds the discriminator attribute `kind` itself (variant.__dict__["kind"])"""
+    return bool(schema["classes"][c].get("tag"))
+
+
+def subclasses_walk(schema, p):
+    """iter_all_subclasses(p): __subclasses__() in definition order, depth first, pre-order"""
+    out = []
+    for c in range(len(schema["classes"])):
+        if schema["classes"][c]["parent"] == p:
+            out.append(c)
+            out += subclasses_walk(schema, c)
+    return out
+
+
+def disc_variants(schema, p, wf, sup):
+    """the classes a discriminator over p can produce (with a field: the tagged ones)"""
+    vs = subclasses_walk(schema, p) + ([p] if sup else [])
+    return [v for v in vs if has_tag(schema, v)] if wf else vs
+
+
 def descendants(schema, c):
     out = []
     for d in range(len(schema["classes"])):
@@ -94,7 +115,7 @@ def name_default(schema, n):
 
 
 def ty_classes(t):
-    if t[0] == "dc":
+    if t[0] in ("dc", "disc"):
         return [t[1]]
     if t[0] == "list":
         return ty_classes(t[2])
@@ -106,8 +127,8 @@ def ty_classes(t):
 
 
 def ty_has_union(t):
-    if t[0] == "union":
-        return True
+    if t[0] == "union" or (t[0] == "disc" and not t[2]):
+        return True      # speculative constructs: Union, discriminator without a field
     if t[0] == "list":
         return ty_has_union(t[2])
     if t[0] == "opt":
@@ -139,6 +160,9 @@ def py_ty(t, cur=None, sp=None, self_c=None):
         if self_c is not None and t[1] == self_c:
             return "Self"
         return f'"K{t[1]}"' if cur is not None and t[1] >= cur else f"K{t[1]}"
+    if t[0] == "disc":
+        args = (['field="kind"'] if t[2] else []) + ["include_subtypes=True"] + (["include_supertypes=True"] if t[3] else [])
+        return f'Annotated[K{t[1]}, Discriminator({", ".join(args)})]'
     if t[0] == "list":
         inner = py_ty(t[2], cur, sp, self_c)
         if sp.get("builtin") and not plain:
@@ -164,10 +188,9 @@ def field_ann(schema, c, n):
     e = schema["names"][str(n)]
     cur = None if schema.get("future_ann") else c
     self_c = c if e.get("self") else None
-    if sp.get("annotated") and e.get("annotated"):
-        # Optional[Annotated[T, ..]], not Annotated[Optional[T], ..]: for the latter without a default /repo's to_dict
-        # raises AttributeError on None (nullability is decided before Annotated is unwrapped) - not a C19 matter
-        if e["ty"][0] == "opt":
+    if sp.get("annotated") and e.get("annotated") and "Discriminator" not in py_ty(e["ty"]):
+        # both nestings: Annotated[Optional[T], ..] and Optional[Annotated[T, ..]]
+        if e["ty"][0] == "opt" and n % 2 == 0:
             inner = py_ty(e["ty"][1], cur=cur, sp=sp, self_c=self_c)
             return f'Optional[Annotated[{inner}, "meta"]]'
         return f'Annotated[{py_ty(e["ty"], cur=cur, sp=sp, self_c=self_c)}, "meta"]'
@@ -282,9 +305,11 @@ def class_source(schema) -> str:
             cfg.append("code_generation_options = [" + ", ".join(opts) + "]")
         elif k["own_ctx"] is not None:
             cfg.append("code_generation_options = " + ("[ADD_SERIALIZATION_CONTEXT]" if k["own_ctx"] else "[]"))
-        if k.get("disc"):
+        if k.get("disc") == "nofield":
+            cfg.append('discriminator = Discriminator(include_subtypes=True)')
+        elif k.get("disc"):
             cfg.append('discriminator = Discriminator(field="kind", include_subtypes=True)')
-        if disc_root(schema, c) is not None and not k.get("disc"):
+        if k.get("tag"):
             body.append(f'    kind = "K{c}"')
         if cfg:
             body.append("    class Config(BaseConfig):")
@@ -426,7 +451,7 @@ def wire_of(schema, v, drop_default_none=False):
         if x[0] == "none" and drop_default_none and name_default(schema, n):
             continue
         d[f"f{n}"] = wire_of(schema, x, drop_default_none)
-    if disc_root(schema, c) is not None:
+    if has_tag(schema, c):
         d["kind"] = f"K{c}"
     return d
 
@@ -687,13 +712,58 @@ def subtree_uids(v):
     return s
 
 
+def subclass_positions(schema, t, v, out):
+    """instances whose class is a strict subclass of the dataclass the position is declared with"""
+    if t[0] == "union":
+        if v[0] == "inst":
+            if v[1] not in t[1]:
+                out.append(v)
+            for n, x in v[4]:
+                subclass_positions(schema, name_ty(schema, n), x, out)
+    elif t[0] in ("dc", "disc") and v[0] == "inst":
+        if v[1] != t[1]:
+            out.append(v)
+        for n, x in v[4]:
+            subclass_positions(schema, name_ty(schema, n), x, out)
+    elif t[0] == "list" and v[0] == "list":
+        for x in v[2]:
+            subclass_positions(schema, t[2], x, out)
+    elif t[0] == "opt" and v[0] != "none":
+        subclass_positions(schema, t[1], v, out)
+
+
+def declared_positions(schema, t, v, out):
+    """(declared class, instance) for every instance at a position declared with one dataclass"""
+    if t[0] in ("dc", "disc") and v[0] == "inst":
+        out.append((t[1], v))
+        for n, x in v[4]:
+            declared_positions(schema, name_ty(schema, n), x, out)
+    elif t[0] == "union" and v[0] == "inst":
+        for n, x in v[4]:
+            declared_positions(schema, name_ty(schema, n), x, out)
+    elif t[0] == "list" and v[0] == "list":
+        for x in v[2]:
+            declared_positions(schema, t[2], x, out)
+    elif t[0] == "opt" and v[0] != "none":
+        declared_positions(schema, t[1], v, out)
+
+
+FORMAT_METHODS = {"orjson": ("to_jsonb", "to_json"), "msgpack": ("to_msgpack",), "toml": ("to_toml",)}
+
+
+def is_format_method(schema, entry):
+    """mixin methods with a format-specific nested method __mashumaro_to_dict_<fmt>__ (compiled per declared class,
+    resolved through the MRO for a subclass instance)"""
+    return entry["via"] == "mixin" and entry.get("method") in FORMAT_METHODS.get(schema["kind"], ())
+
+
 def union_positions(schema, t, v, out, via_codec):
     """(members, value) for every union position of the value"""
     if t[0] == "union":
         out.append((t[1], v))
         if v[0] == "inst":
             union_positions(schema, ["dc", v[1]], v, out, via_codec)
-    elif t[0] == "dc" and v[0] == "inst":
+    elif t[0] in ("dc", "disc") and v[0] == "inst":
         for n, x in v[4]:
             union_positions(schema, name_ty(schema, n), x, out, via_codec)
     elif t[0] == "list" and v[0] == "list":
@@ -745,27 +815,60 @@ def check_ser(schema, root_ty, value, entry, res):
         # codec-union-static-dispatch: union with >= 2 dataclass members holding an instance of a member that
         # is not the first; everything observed outside those instances' subtrees is as expected
         aff = [v for ms, v in ups if len(ms) >= 2 and v[0] == "inst" and v[1] != ms[0]]
-        if aff:
+        sub = []
+        subclass_positions(schema, root_ty, value, sub)
+
+        def confined(vs):
             uids = set()
-            for v in aff:
+            for v in vs:
                 uids |= subtree_uids(v)
-            rest_obs = [e for e in obs_e if e[2] not in uids]
-            rest_exp = [e for e in exp_e if e[2] not in uids]
-            if rest_obs == rest_exp and not ctx_bad:
-                kind = "codec-union-static-dispatch"
+            return ([e for e in obs_e if e[2] not in uids] == [e for e in exp_e if e[2] not in uids]) and not ctx_bad
+        if aff and confined(aff):
+            kind = "codec-union-static-dispatch"
+        elif sub and confined(sub + aff):
+            # a position declared with dataclass A holds an instance of a strict subclass; A's function is called
+            # statically, so hooks (and fields) the subclass adds are skipped
+            kind = "codec-subclass-static-dispatch"
+    elif is_format_method(schema, entry) and _confined_sub(schema, root_ty, value, obs_e, exp_e, ctx_bad):
+        # to_msgpack / to_jsonb / to_toml: value.__mashumaro_to_dict_<fmt>__ of a subclass instance resolves through
+        # the MRO to the method compiled for the declared class (the subclass never got its own)
+        kind = "format-method-subclass-dispatch"
     else:
         # union-member-flags: mixin union whose members' flag sets differ, instance of a member other than the
         # first; the only difference is the context seen inside that instance's subtree
         aff = [v for ms, v in ups if len(ms) >= 2 and v[0] == "inst" and v[1] != ms[0]
                and len({ctx_on(schema, m) for m in ms}) > 1]
-        if aff and order_ok and out_ok and res["ok"]:
+        # subclass-declared-class-flags: a position declared with a class that did not opt in holds an instance of a
+        # subclass that did; the keyword list comes from the declared class, so the instance's hooks see None
+        decl = []
+        declared_positions(schema, root_ty, value, decl)
+        aff2 = [v for c, v in decl if v[1] != c and ctx_on(schema, v[1]) and not ctx_on(schema, c)]
+
+        def ctx_confined(vs):
             uids = set()
-            for v in aff:
+            for v in vs:
                 uids |= subtree_uids(v)
-            if ctx_bad and all(u in uids and code == "N" for _, _, u, code in ctx_bad):
+            return bool(ctx_bad) and all(u in uids and code == "N" for _, _, u, code in ctx_bad)
+        if order_ok and out_ok and res["ok"]:
+            if aff and ctx_confined(aff):
                 kind = "union-member-flags"
+            elif aff2 and ctx_confined(aff2 + aff):
+                kind = "subclass-declared-class-flags"
     sig["kind"] = kind
     return "; ".join(problems)[:900], sig
+
+
+def _confined_sub(schema, root_ty, value, obs_e, exp_e, ctx_bad):
+    sub = []
+    subclass_positions(schema, root_ty, value, sub)
+    if not sub:
+        return False
+    uids = set()
+    for v in sub:
+        uids |= subtree_uids(v)
+    if any(u not in uids for _, _, u, _ in ctx_bad):
+        return False      # (the declared class's method also decides whether the hooks get the context keyword)
+    return [e for e in obs_e if e[2] not in uids] == [e for e in exp_e if e[2] not in uids]
 
 
 def _drop_none(x):
@@ -837,6 +940,8 @@ def coq_ty(t):
         return f"(TList {coq_ty(t[2])})"
     if t[0] == "opt":
         return f"(TOpt {coq_ty(t[1])})"
+    if t[0] == "disc":
+        return f"(TDisc {t[1]} {coq_bool(t[2])} {coq_bool(t[3])})"
     return "(TUnion [" + "; ".join(str(c) for c in t[1]) + "])"
 
 
@@ -844,13 +949,21 @@ def coq_bool(b):
     return "true" if b else "false"
 
 
+def coq_xf(flags):
+    return "(" + ", ".join(coq_bool(f in flags) for f in ("omit_none", "by_alias", "dialect")) + ")"
+
+
 def coq_env(schema):
     cs = []
     for c in range(len(schema["classes"])):
         fl = "; ".join(f"Build_field {n} {coq_ty(name_ty(schema, n))} {coq_bool(name_default(schema, n))}"
                        for n in flat_fields(schema, c))
+        k = schema["classes"][c]
+        par = "None" if k["parent"] is None else f"(Some {k['parent']})"
+        tag = f"(Some {c})" if k.get("tag") else "None"
+        disc = {None: "None", False: "None", "field": "(Some true)", True: "(Some true)", "nofield": "(Some false)"}[k.get("disc")]
         cs.append(f"Build_cinfo [{fl}] " + " ".join(coq_bool(has_hook(schema, c, h)) for h in HOOKS)
-                  + " " + coq_bool(ctx_on(schema, c)))
+                  + " " + coq_bool(ctx_on(schema, c)) + f" {par} {tag} {disc} " + coq_xf(class_flags(schema, c)))
     return "[" + ";\n      ".join(cs) + "]"
 
 
@@ -891,9 +1004,10 @@ def coq_wire_typed(schema, t, w):
     if t[0] == "list":
         items = list(w.values()) if isinstance(w, dict) else list(w)
         return "(WList [" + "; ".join(coq_wire_typed(schema, t[2], x) for x in items) + "])"
-    # dc / union: keys are field names, each name has one type
-    return "(WDict [" + "; ".join(f"({int(k[1:])}, {coq_wire_typed(schema, name_ty(schema, int(k[1:])), x)})"
-                                  for k, x in w.items()) + "])"
+    # dc / union / disc: keys are field names, each name has one type; "kind" is the discriminator tag
+    tag = f"(Some {int(w['kind'][1:])})" if "kind" in w else "None"
+    return f"(WDict {tag} [" + "; ".join(f"({int(k[1:])}, {coq_wire_typed(schema, name_ty(schema, int(k[1:])), x)})"
+                                         for k, x in w.items() if k != "kind") + "])"
 
 
 def coq_events(log):
